@@ -48,11 +48,10 @@ META = {
                   'up-to-date before its parent starts; at the end of every run that reaches finish() the teardown '
                   'executions are exactly Runner.teardown over the tasks with teardown in start order (reverse order, '
                   'once each, a failing one does not remove the others) -- shared list for serial/thread, per worker '
-                  'process for -n k.  For the process runner the full statement is FALSE of the current code when a '
-                  'teardown fails (open finding process-teardown-failure): proved as a counterexample, the theorem is '
-                  'partial (no failing teardown in that worker) and full for the repaired variant.',
-    'level_note': 'C11_teardown_process_partial is partial: a failing teardown inside a worker process ends that worker\'s '
-                  'teardown loop and kills the run (MReporter.cleanup_error raises AttributeError).  Trusted: Lean kernel; '
+                  'process for -n k (full strength since the repair of the finding process-teardown-failure made by this '
+                  'check; the behaviour before it and the pinned thread behaviour are kept as counterexample theorems).',
+    'level_note': 'The trace form of laziness (monLazy) is monitored on the implementation but not proved of the model '
+                  '(def C11_lazy_monitor_full); the state form is proved.  Trusted: Lean kernel; '
                   'doitdrv; the Python harness (generator, recording reporter, instrumented teardown actions, deterministic '
                   'scheduler, token controller).  Monitors: Lean (driver) with a Python cross-check.',
     'rule': 'random DAGs of 3-8 tasks biased to setup / getargs edges with shared and nested setup-tasks, teardown on ~60% '
@@ -183,7 +182,8 @@ def td_applicable(case, obs):
         return True
     if case['runner'] == 'serial':
         return any(e[0] == 'complete' for e in obs['trace'])
-    # a parallel run that died: only the (known) death caused by a failing teardown in a worker process is C11's
+    # a parallel run that died: a death in the presence of failing teardowns under the process runner is C11's business
+    # (F-C11b: the worker's teardown loop raised and took the run with it)
     return case['runner'] == 'process' and str(obs['err']).startswith('crash') and \
         any(t.get('td_fail') for t in case['tasks'])
 
@@ -199,15 +199,6 @@ def teardown_run(case, who, order):
         out.append(['td', n, who])
         if case['tasks'][n].get('td_fail'):
             out.append(['tderr', n, who])
-    return out
-
-
-def teardown_abort(case, who, order):
-    out = []
-    for n in reversed(order):
-        out.append(['td', n, who])
-        if case['tasks'][n].get('td_fail'):
-            break
     return out
 
 
@@ -356,7 +347,6 @@ def c11_request(case, obs, mixed):
     req['tdFail'] = [bool(t.get('td_fail')) for t in case['tasks']]
     req['mixed'] = mixed
     req['nworkers'] = case['nproc'] if case['runner'] == 'process' else 0
-    req['procFixed'] = False
     return req
 
 
@@ -372,32 +362,7 @@ def ask(triples):
     return list(zip(base, mine))
 
 
-# ======================================================================================================
-# known finding: a failing teardown inside a worker process
-# ======================================================================================================
-
-def sig_process_teardown_failure(witness):
-    """the process runner, the only failed monitor is C11_td_exact, at least one worker's observed teardown log is
-    exactly Runner.teardown cut off after the first FAILING teardown (no error report, later ones missing), and every
-    other worker's log is a prefix of its own cut-off loop (workers are terminated when the main process dies)"""
-    case = witness.get('case') or {}
-    if case.get('runner') != 'process' or witness.get('failed_monitors') != ['C11_td_exact']:
-        return False
-    mixed = witness.get('mixed') or []
-    tdlog = [e for e in mixed if e[0] in ('td', 'tderr')]
-    cut = False
-    for w in range(case.get('nproc', 0)):
-        order = start_order(case, mixed, w)
-        got = [e for e in tdlog if e[2] == w]
-        abort = teardown_abort(case, w, order)
-        if got != abort[:len(got)]:
-            return False      # not a prefix of the cut-off loop (the other workers are killed when the main process dies)
-        if got == abort and got != teardown_run(case, w, order):
-            cut = True        # this worker's loop ended at a failing teardown
-    return cut and not any(e[2] == -1 or e[2] >= case.get('nproc', 0) for e in tdlog)
-
-
-SIGNATURES = {'process-teardown-failure': sig_process_teardown_failure}
+SIGNATURES = {}
 
 
 # ======================================================================================================
@@ -562,17 +527,14 @@ def judge(case, obs, mixed, base_ans, ans, st, shrink_left):
     if failed:
         first = failed[0]
         wit = make_witness(case, obs, mixed, failed, py, lean, pywit)
-        known = sig_process_teardown_failure(wit)
-        if known:
-            st.count('known:process-teardown-failure')
-        elif shrink_left > 0 and py.get(first, True) is False:
+        if shrink_left > 0 and py.get(first, True) is False:
             t0 = time.time()
             try:
                 small = shrink_case(case, first, min(12.0, shrink_left))
                 o2, m2 = observe(small)
                 p2, w2 = py_monitors(small, o2, m2)
                 bad2 = failed_monitors(p2, None)
-                if bad2 and not sig_process_teardown_failure(make_witness(small, o2, m2, bad2, p2, None, w2)):
+                if bad2:
                     a2 = ask([(small, o2, m2)])[0][1]
                     l2 = None if 'error' in a2 else a2.get('monitor')
                     wit = make_witness(small, o2, m2, failed_monitors(p2, l2), p2, l2, w2)
@@ -715,9 +677,7 @@ def plan(ctx, scale=1.0):
     rng.shuffle(gen)
     size = 20 if quick else 60
     pool = [{'gen': gen[i:i + size], 'shrink_s': 12.0} for i in range(0, len(gen), size)]
-    # process cases without action-less group tasks: the trace acceptor of the run family (Driver/Run.lean, not ours) takes
-    # the silent pick-up / completion of such a task eagerly and then rejects legitimate races with real workers
-    procs = [(rng.randrange(1 << 60), dict(KNOBS, runner='process', n_max=6, p_td_fail=0.12, p_group=0.0)) for _ in range(n_proc)]
+    procs = [(rng.randrange(1 << 60), dict(KNOBS, runner='process', n_max=6, p_td_fail=0.25)) for _ in range(n_proc)]
     return pool, [{'gen': procs[i:i + 5], 'shrink_s': 10.0} for i in range(0, len(procs), 5)]
 
 
@@ -803,8 +763,6 @@ def replay(ctx, data):
     bad = failed_monitors(py, lean)
     if bad:
         print('FAILED monitors:', bad)
-        if sig_process_teardown_failure(make_witness(case, obs, mixed, bad, py, lean, wit)):
-            print('(this is the open known finding process-teardown-failure)')
         return False
     print('base model accepts the trace:', ba.get('accepted') if isinstance(ba, dict) else ba)
     if lean is not None:
